@@ -324,6 +324,15 @@ def run(ctx):
             "history": (evx.heap.get((SELF, "history")), "history", S_, "state['history']"),
             "rng_state": (set_value(rng_val, "rng_state", S_) if rng_val is not None else None, "rng_state", S_, "state['rng_state']"),
         }
+        # the history is extended in place by the run: taken from a checkpoint *dictionary* it must be a deep copy, or the resumed run
+        # rewrites the checkpoint the caller still holds (and a second resume from it finds a finished schedule)
+        hv_ = exact["history"][0]
+        copied_ = hv_ is not None and hv_[0] == "f" and hv_[1].endswith("deepcopy") and hv_[2]
+        if copied_:
+            exact["history"] = (hv_[2][0],) + exact["history"][1:]
+        ctx.decide(bool(copied_), "C11.restore", rfc.ident, loc_of(rfc), "the restored history is a deep copy of the checkpoint's entry (the run appends to it)",
+                   f"the restored history is {T.show(hv_)[:100] if hv_ else 'not set'} -- the object inside the caller's checkpoint dictionary itself: the resumed run appends every further "
+                   "iteration to it, so the checkpoint is rewritten while it is being resumed from, and resuming from the same dictionary again does not reproduce the run", disc="history|owned")
         for nm, (val_, key_, base_, where) in exact.items():
             ctx.decide(getter(val_, key_, base_), "C11.restore", rfc.ident, loc_of(rfc), f"whenever the checkpoint holds it, the restored {nm} is exactly {where}",
                        f"with a checkpoint in the layout build_checkpoint_state writes, the restored {nm} is {T.show(val_)[:160] if val_ else 'not set'}, not {where}: "
